@@ -26,26 +26,11 @@ Fixpoint wf (segs : list seg) : bool :=
       end && wf r
   end.
 
-Fixpoint ci_eqs (a b : str) : bool :=
-  match a, b with
-  | [], [] => true
-  | x :: a', y :: b' => ci_eqc x y && ci_eqs a' b'
-  | _, _ => false
-  end.
-
-Definition subst1 (n v : str) (segs : list seg) : list seg :=
-  map (fun g => match g with Ref w => if ci_eqs n w then Lit v else Ref w | x => x end) segs.
-
 (* one-pass specification: every reference stands for the value of the variable of that name *)
-Definition lookup (vs : vars) (w : str) : option str :=
-  match find (fun nv => ci_eqs (fst nv) w) vs with Some (_, v) => Some v | None => None end.
 Definition expand (vs : vars) (segs : list seg) : list seg :=
   map (fun g => match g with
                 | Ref w => match lookup vs w with Some v => Lit v | None => Ref w end
                 | x => x end) segs.
-
-Definition vars_ok (vs : vars) : bool :=
-  forallb (fun nv => word (fst nv) && dollar_free (snd nv)) vs.
 
 (* ---- character facts ---- *)
 Lemma word_not_dollar c : is_word c = true -> (c =? dollar) = false.
@@ -54,141 +39,10 @@ Proof.
   destruct (Z.eqb_spec c 36) as [->|]; [discriminate H|reflexivity].
 Qed.
 
-Lemma word_dollar_free w : word w = true -> dollar_free w = true.
-Proof.
-  induction w as [|c w IH]; cbn; [reflexivity|]. intros H. apply andb_true_iff in H as [H1 H2].
-  rewrite (word_not_dollar _ H1). cbn. auto.
-Qed.
-
-Lemma ci_word_nonword a c : is_word a = true -> is_word c = false -> ci_eqc a c = false.
-Proof.
-  unfold ci_eqc, lo_c, is_word, is_ascii_lower, is_ascii_upper, is_digit. intros Ha Hc.
-  apply Z.eqb_neq.
-  repeat match goal with
-  | H : context [?x <=? ?y] |- _ => destruct (Z.leb_spec x y)
-  | |- context [?x <=? ?y] => destruct (Z.leb_spec x y)
-  | H : context [?x =? ?y] |- _ => destruct (Z.eqb_spec x y)
-  end; cbn in *; try discriminate; lia.
-Qed.
-
-(* ---- scanning lemmas ---- *)
-Lemma go_lit n v l rest : dollar_free l = true ->
-  inline_go n v O (l ++ rest) = l ++ inline_go n v O rest.
-Proof.
-  induction l as [|c l IH]; cbn [app dollar_free forallb]; intros H; [reflexivity|].
-  apply andb_true_iff in H as [H1 H2]. apply negb_true_iff in H1.
-  cbn [inline_go]. rewrite H1. cbn [andb]. f_equal. apply IH. exact H2.
-Qed.
-
-Lemma go_skip n v w rest : inline_go n v (length w) (w ++ rest) = inline_go n v O rest.
-Proof. induction w as [|c w IH]; cbn; auto. Qed.
-
-Lemma ci_eqs_length a b : ci_eqs a b = true -> length a = length b.
-Proof.
-  revert b. induction a as [|x a IH]; intros [|y b] H; cbn in *; try discriminate; [reflexivity|].
-  apply andb_true_iff in H as [_ H]. f_equal. auto.
-Qed.
-
-Lemma strip_ci_match n w rest : ci_eqs n w = true -> strip_ci n (w ++ rest) = Some rest.
-Proof.
-  revert w. induction n as [|a n IH]; intros [|b w] H; cbn in *; try discriminate; [reflexivity|].
-  apply andb_true_iff in H as [H1 H2]. rewrite H1. auto.
-Qed.
-
-Lemma matches_nomatch n w rest : word n = true -> word w = true -> boundary rest = true ->
-  ci_eqs n w = false -> nonnil w = true -> matches n (w ++ rest) = false.
-Proof.
-  unfold matches. revert w. induction n as [|a n IH]; intros w Wn Ww B E NN.
-  - destruct w as [|b w]; [discriminate|]. cbn. cbn in Ww. apply andb_true_iff in Ww as [Wb _].
-    rewrite Wb. reflexivity.
-  - cbn in Wn. apply andb_true_iff in Wn as [Wa Wn].
-    destruct w as [|b w]; [discriminate|].
-    cbn [app strip_ci]. cbn in E. cbn in Ww. apply andb_true_iff in Ww as [Wb Ww].
-    destruct (ci_eqc a b) eqn:Eab; [|reflexivity]. cbn in E.
-    destruct w as [|b' w'].
-    + (* the word is exhausted: the name continues into the rest *)
-      cbn [app]. destruct n as [|a' n'].
-      * discriminate.
-      * cbn in Wn. apply andb_true_iff in Wn as [Wa' _].
-        destruct rest as [|c rest']; cbn [strip_ci]; [reflexivity|].
-        cbn in B. apply negb_true_iff in B. rewrite (ci_word_nonword _ _ Wa' B). reflexivity.
-    + apply IH; auto.
-Qed.
-
 Lemma boundary_next r : match r with [] => true | Lit (c :: _) :: _ => negb (is_word c) | _ => false end = true ->
   boundary (render r) = true.
 Proof.
   destruct r as [|[ [|c s] | w] r']; cbn; try discriminate; auto.
-Qed.
-
-Lemma inline_one_render n v : word n = true -> forall segs, wf segs = true ->
-  inline_go n v O (render segs) = render (subst1 n v segs).
-Proof.
-  intros Wn. induction segs as [|g segs IH]; intros W; [reflexivity|].
-  unfold render in *. cbn [map concat]. destruct g as [s|w]; cbn [wf] in W.
-  - apply andb_true_iff in W as [D W]. cbn [render1 subst1 map concat]. rewrite go_lit by exact D.
-    f_equal. apply IH. exact W.
-  - apply andb_true_iff in W as [W Wr]. apply andb_true_iff in W as [W Nx].
-    apply andb_true_iff in W as [Ww NN].
-    pose proof (boundary_next _ Nx) as B. unfold render in B.
-    cbn [render1 subst1 map]. cbn [app]. cbn [inline_go].
-    replace (dollar =? dollar) with true by (symmetry; apply Z.eqb_refl). cbn [andb].
-    destruct (ci_eqs n w) eqn:E.
-    + unfold matches. rewrite (strip_ci_match _ _ _ E), B.
-      rewrite (ci_eqs_length _ _ E), go_skip. cbn [render1 concat]. f_equal. apply IH. exact Wr.
-    + rewrite (matches_nomatch n w _ Wn Ww B E NN). cbn [render1 concat app]. f_equal.
-      rewrite go_lit by (apply word_dollar_free; exact Ww). f_equal. apply IH. exact Wr.
-Qed.
-
-Lemma wf_subst1 n v segs : dollar_free v = true -> wf segs = true -> wf (subst1 n v segs) = true.
-Proof.
-  intros D. induction segs as [|g segs IH]; intros W; [reflexivity|].
-  destruct g as [s|w]; cbn [wf subst1 map] in *.
-  - apply andb_true_iff in W as [A B]. rewrite A. cbn. apply IH. exact B.
-  - apply andb_true_iff in W as [W Wr]. apply andb_true_iff in W as [W Nx].
-    destruct (ci_eqs n w).
-    + cbn [wf]. rewrite D. cbn. apply IH. exact Wr.
-    + cbn [wf]. rewrite W. cbn [andb]. fold (subst1 n v segs). rewrite (IH Wr).
-      destruct segs as [|[ [|c s] | w'] r']; cbn in *; try discriminate; try rewrite Nx; reflexivity.
-Qed.
-
-Lemma subst1_expand n v vs segs :
-  expand vs (subst1 n v segs) = expand ((n, v) :: vs) segs.
-Proof.
-  unfold expand, subst1. rewrite map_map. apply map_ext. intros [s|w]; [reflexivity|].
-  unfold lookup. cbn [find fst]. destruct (ci_eqs n w); reflexivity.
-Qed.
-
-Lemma inline_all_render : forall vs segs, vars_ok vs = true -> wf segs = true ->
-  inline_all vs (render segs) = render (expand vs segs) /\ wf (expand vs segs) = true.
-Proof.
-  unfold inline_all. induction vs as [|[n v] vs IH]; intros segs V W.
-  - cbn. assert (E : expand [] segs = segs).
-    { unfold expand. rewrite <- (map_id segs) at 2. apply map_ext. intros [s|w]; reflexivity. }
-    rewrite E. auto.
-  - cbn [vars_ok forallb fst snd] in V. apply andb_true_iff in V as [V1 V]. apply andb_true_iff in V1 as [Wn Dv].
-    cbn [fold_left fst snd]. unfold inline_one. rewrite inline_one_render by assumption.
-    destruct (IH (subst1 n v segs) V (wf_subst1 n v segs Dv W)) as [A B].
-    rewrite subst1_expand in *. auto.
-Qed.
-
-(* ---- the final check ---- *)
-Definition is_ref (g : seg) : bool := match g with Ref _ => true | _ => false end.
-
-Lemma remaining_lit l rest pd : dollar_free l = true -> nonnil l = true ->
-  remaining pd (l ++ rest) = remaining false rest.
-Proof.
-  revert pd. induction l as [|c l IH]; intros pd D NN; [discriminate|].
-  cbn [dollar_free forallb] in D. apply andb_true_iff in D as [D1 D2]. apply negb_true_iff in D1.
-  cbn [app remaining]. rewrite D1. cbn [andb]. destruct l as [|c' l'].
-  - reflexivity.
-  - apply IH; auto.
-Qed.
-
-Lemma remaining_lit0 l rest : dollar_free l = true ->
-  remaining false (l ++ rest) = remaining false rest.
-Proof.
-  intros D. destruct l as [|c l]; [reflexivity|]. apply remaining_lit; auto.
 Qed.
 
 Lemma take_word_app w rest : word w = true -> boundary rest = true -> take_word (w ++ rest) = w.
@@ -198,71 +52,88 @@ Proof.
   - apply andb_true_iff in W as [W1 W2]. cbn [take_word]. rewrite W1. f_equal. auto.
 Qed.
 
-Lemma remaining_norefs segs : wf segs = true -> forallb (fun g => negb (is_ref g)) segs = true ->
-  remaining false (render segs) = None.
+(* ---- scanning lemmas for the one-pass substitution ---- *)
+Definition prefix_res (l : str) (r : str + str) : str + str := match r with inl o => inl (l ++ o) | inr e => inr e end.
+
+Lemma xgo_lit vs l rest : dollar_free l = true -> xgo vs O false (l ++ rest) = prefix_res l (xgo vs O false rest).
 Proof.
-  induction segs as [|g segs IH]; intros W N; [reflexivity|].
-  destruct g as [s|w]; [|discriminate]. cbn [wf] in W. apply andb_true_iff in W as [D W].
-  unfold render in *. cbn [map concat render1]. rewrite remaining_lit0 by exact D. apply IH; auto.
+  induction l as [|c l IH]; cbn [app dollar_free forallb]; intros H.
+  - unfold prefix_res. destruct (xgo vs 0 false rest); reflexivity.
+  - apply andb_true_iff in H as [H1 H2]. apply negb_true_iff in H1.
+    cbn [xgo]. rewrite H1. cbn [andb]. rewrite (IH H2). unfold prefix_res. destruct (xgo vs 0 false rest); reflexivity.
 Qed.
 
-Lemma remaining_first_ref pre w post : wf (pre ++ Ref w :: post) = true ->
-  forallb (fun g => negb (is_ref g)) pre = true ->
-  remaining false (render (pre ++ Ref w :: post)) = Some (dollar :: w).
+Lemma xgo_skip' vs : forall w rest pd, nonnil w = true -> xgo vs (length w) pd (w ++ rest) = xgo vs O false rest.
 Proof.
-  induction pre as [|g pre IH]; intros W N.
-  - cbn [app] in *. cbn [wf] in W. apply andb_true_iff in W as [W Wr]. apply andb_true_iff in W as [W Nx].
-    apply andb_true_iff in W as [Ww NN]. pose proof (boundary_next _ Nx) as B.
-    unfold render in *. cbn [map concat render1 app remaining].
-    replace (dollar =? dollar) with true by (symmetry; apply Z.eqb_refl). cbn [negb andb].
-    destruct w as [|c w]; [discriminate|]. cbn [app boundary]. cbn in Ww.
-    apply andb_true_iff in Ww as [Wc Ww]. rewrite Wc. cbn [negb].
-    f_equal. f_equal. cbn [take_word]. rewrite Wc. f_equal. apply take_word_app; assumption.
-  - destruct g as [s|w']; [|discriminate]. cbn [app wf] in W. apply andb_true_iff in W as [D W].
-    unfold render in *. cbn [app map concat render1]. rewrite remaining_lit0 by exact D.
-    apply IH; auto.
+  induction w as [|c w IH]; intros rest pd N; [discriminate|]. cbn [length app xgo].
+  destruct w as [|c' w']; [reflexivity|]. apply IH. reflexivity.
 Qed.
 
+Lemma xgo_ref vs w rest : word w = true -> nonnil w = true -> boundary rest = true ->
+  xgo vs O false (dollar :: w ++ rest) =
+  match lookup vs w with Some v => prefix_res v (xgo vs O false rest) | None => inr (upper (dollar :: w)) end.
+Proof.
+  intros Ww NN B. cbn [xgo]. replace (dollar =? dollar) with true by (symmetry; apply Z.eqb_refl). cbn [negb andb].
+  assert (Bw : boundary (w ++ rest) = false).
+  { destruct w as [|c w']; [discriminate|]. cbn in Ww. apply andb_true_iff in Ww as [Wc _]. cbn. rewrite Wc. reflexivity. }
+  rewrite Bw. cbn [negb]. rewrite (take_word_app w rest Ww B).
+  destruct (lookup vs w) as [v|]; [|reflexivity].
+  rewrite (xgo_skip' vs w rest false NN). unfold prefix_res. destruct (xgo vs 0 false rest); reflexivity.
+Qed.
+
+Definition is_ref (g : seg) : bool := match g with Ref _ => true | _ => false end.
 Definition defined (vs : vars) (g : seg) : bool :=
   match g with Ref w => match lookup vs w with Some _ => true | None => false end | _ => true end.
 
+(* the one-pass substitution IS the one-pass specification - for every text built from '$'-free literal segments and references,
+   every set of variables (any names, any values: a value may contain '$' signs and references, it is not scanned again) *)
 Theorem inline_is_expand_l : forall vs segs,
-  vars_ok vs = true -> wf segs = true -> forallb (defined vs) segs = true ->
+  wf segs = true -> forallb (defined vs) segs = true ->
   inline_text vs (render segs) = inl (render (expand vs segs)).
 Proof.
-  intros vs segs V W Df. unfold inline_text.
-  destruct (inline_all_render vs segs V W) as [E Wf]. rewrite E.
-  rewrite remaining_norefs; [reflexivity|exact Wf|].
-  unfold expand. rewrite forallb_forall. intros g Hg. apply in_map_iff in Hg as (g0 & <- & Hin).
-  rewrite forallb_forall in Df. specialize (Df _ Hin). destruct g0 as [s|w]; [reflexivity|].
-  cbn in Df. destruct (lookup vs w); [reflexivity|discriminate].
+  intros vs. unfold inline_text. induction segs as [|g segs IH]; intros W Df; [reflexivity|].
+  cbn [forallb] in Df. apply andb_true_iff in Df as [Dg Df].
+  unfold render in *. cbn [map concat]. destruct g as [s|w]; cbn [wf] in W.
+  - apply andb_true_iff in W as [D W]. cbn [render1 expand map concat]. rewrite xgo_lit by exact D.
+    rewrite (IH W Df). reflexivity.
+  - apply andb_true_iff in W as [W Wr]. apply andb_true_iff in W as [W Nx]. apply andb_true_iff in W as [Ww NN].
+    pose proof (boundary_next _ Nx) as B. unfold render in B.
+    cbn [render1]. cbn [app]. rewrite (xgo_ref vs w _ Ww NN B).
+    cbn [defined] in Dg. cbn [expand map]. destruct (lookup vs w) as [v|]; [|discriminate].
+    rewrite (IH Wr Df). reflexivity.
 Qed.
 
+(* the first reference to an undefined variable raises "Session variable '$NAME' does not exist" *)
 Theorem undefined_raises_l : forall vs pre w post,
-  vars_ok vs = true -> wf (pre ++ Ref w :: post) = true ->
+  wf (pre ++ Ref w :: post) = true ->
   forallb (defined vs) pre = true -> lookup vs w = None ->
   inline_text vs (render (pre ++ Ref w :: post)) = inr (upper (dollar :: w)).
 Proof.
-  intros vs pre w post V W Df U. unfold inline_text.
-  destruct (inline_all_render vs _ V W) as [E Wf]. rewrite E.
-  unfold expand in *. rewrite map_app in *. cbn [map] in *. rewrite U in *.
-  rewrite remaining_first_ref; [reflexivity|exact Wf|].
-  rewrite forallb_forall. intros g Hg. apply in_map_iff in Hg as (g0 & <- & Hin).
-  rewrite forallb_forall in Df. specialize (Df _ Hin). destruct g0 as [s|w0]; [reflexivity|].
-  cbn in Df. destruct (lookup vs w0); [reflexivity|discriminate].
+  intros vs pre w post. unfold inline_text. induction pre as [|g pre IH]; intros W Df U.
+  - cbn [app] in *. cbn [wf] in W. apply andb_true_iff in W as [W Wr]. apply andb_true_iff in W as [W Nx]. apply andb_true_iff in W as [Ww NN].
+    pose proof (boundary_next _ Nx) as B. unfold render in *. cbn [map concat render1 app].
+    rewrite (xgo_ref vs w _ Ww NN B), U. reflexivity.
+  - cbn [forallb] in Df. apply andb_true_iff in Df as [Dg Df]. cbn [app] in *.
+    unfold render in *. cbn [map concat]. destruct g as [s|w']; cbn [wf] in W.
+    + apply andb_true_iff in W as [D W]. cbn [render1]. rewrite xgo_lit by exact D. rewrite (IH W Df U). reflexivity.
+    + apply andb_true_iff in W as [W Wr]. apply andb_true_iff in W as [W Nx]. apply andb_true_iff in W as [Ww NN].
+      assert (B : boundary (concat (map render1 (pre ++ Ref w :: post))) = true).
+      { apply (boundary_next (pre ++ Ref w :: post)). exact Nx. }
+      cbn [render1 app]. rewrite (xgo_ref vs w' _ Ww NN B).
+      cbn [defined] in Dg. destruct (lookup vs w'); [|discriminate]. rewrite (IH Wr Df U). reflexivity.
 Qed.
 
 (* text without any '$' is never rewritten, whatever the variables *)
 Theorem non_reference_text_untouched_l : forall vs s, dollar_free s = true ->
   inline_text vs s = inl s.
 Proof.
-  intros vs s D. unfold inline_text, inline_all.
-  assert (E : fold_left (fun s nv => inline_one (fst nv) (snd nv) s) vs s = s).
-  { induction vs as [|[n v] vs IH]; [reflexivity|]. cbn [fold_left fst snd].
-    unfold inline_one at 2. pose proof (go_lit n v s [] D) as G. rewrite !app_nil_r in G. cbn in G.
-    rewrite G. exact IH. }
-  rewrite E. pose proof (remaining_lit0 s [] D) as R. rewrite app_nil_r in R. rewrite R. reflexivity.
+  intros vs s D. unfold inline_text. pose proof (xgo_lit vs s [] D) as H. rewrite app_nil_r in H. rewrite H. cbn. rewrite app_nil_r. reflexivity.
 Qed.
+
+(* a value containing '$' signs and things that look like references is inserted as it is *)
+Example value_with_dollars_l :
+  inline_text [(lit "P", lit "'$HOME/x $p'"); (lit "HOME", lit "7")] (lit "select $p, $home") = inl (lit "select '$HOME/x $p', 7").
+Proof. vm_compute. reflexivity. Qed.
 
 (* ---- per connection ---- *)
 Lemma sget_sset_other st c c' v : c <> c' -> sget (sset st c v) c' = sget st c'.
@@ -304,7 +175,7 @@ Qed.
 Example inline_nonvacuous :
   let vs := [(lit "VAR1", lit "5"); (lit "VAR10", lit "'x y'"); (lit "A_B", lit "1 + 2")] in
   let segs := [Lit (lit "select "); Ref (lit "var10"); Lit (lit ", "); Ref (lit "Var1"); Lit (lit "+"); Ref (lit "a_b")] in
-  vars_ok vs = true /\ wf segs = true /\ forallb (defined vs) segs = true /\
+  wf segs = true /\ forallb (defined vs) segs = true /\
   inline_text vs (render segs) = inl (lit "select 'x y', 5+1 + 2").
 Proof. vm_compute. repeat split. Qed.
 
